@@ -17,4 +17,9 @@ func cmdConsts() {
 	z("MaxStreamsPerChannel", int64(llo.MaxStreamsPerChannel))
 	z("MaxOutcomeChannelDefinitionsLength", int64(llo.MaxOutcomeChannelDefinitionsLength))
 	z("MaxAllowedBlocks", int64(mv1.MaxAllowedBlocks))
+	// the observation length limits the Mercury plugins declare to libocr (unexported constants, read from the
+	// MercuryPluginInfo the real factories return)
+	for ver := 1; ver <= 4; ver++ {
+		z(fmt.Sprintf("MercMaxObservationLength%d", ver), int64(mercObservationLimit(ver)))
+	}
 }
